@@ -44,7 +44,8 @@ def keyops(ck):
     odd = [e for e in evs if e["k"] in ("Unclassified", "NoVector")]
     if odd:
         raise Infra("key types the check cannot place: %s" % json.dumps(odd[:5]))
-    types = {e["type"] for e in evs if e["k"] == "Key"}
+    # (a key type whose in-domain keys the codec refuses is a verdict of the trace specification below, not a reason to give up here)
+    types = {e["type"] for e in evs if e["k"] in ("Key", "KeyFail")}
     sizes = {e["type"] for e in evs if e["k"] == "Size"}
     if len(types) < 100:
         raise Infra("only %d key-capable types were found by reflection" % len(types))
